@@ -14,7 +14,7 @@ class CallMixin:
             raise VCError("star-args in call (line %d)" % node.lineno)
         f = node.func
         # spec-level forms that take unevaluated arguments
-        if self.spec and isinstance(f, ast.Name) and f.id in ("forall", "exists", "old", "let"):
+        if self.spec and isinstance(f, ast.Name) and f.id in ("forall", "exists", "old", "pre", "let"):
             yield from self.spec_form(f.id, node, st); return
         if isinstance(f, ast.Name) and f.id == "super":
             raise VCError("bare super()")
